@@ -264,7 +264,7 @@ pub fn read_dir_files(dir: &Path) -> BTreeMap<String, Vec<u8>> {
 
 /// How the two directories are named on the command line (env entry VERIF_PATH_FORM of the spec; default 0):
 /// 0 absolute; 1 relative to the current directory (= their parent); 2 absolute with a trailing slash; 3 relative with `.` and
-/// `..` components and trailing slashes; 4 through symbolic links; 5 current directory = the data directory (`-d .`, `../dump`); 6-8 current directory = the dump folder, named `""`, `.`, `./`; 9 through links with spaces, quotes and non-ASCII characters in their names; 10 through links whose names are not UTF-8.
+/// `..` components and trailing slashes; 4 through symbolic links; 5 current directory = the data directory (`-d .`, `../dump`); 6-8 current directory = the dump folder, named `""`, `.`, `./`; 9 through links with spaces, quotes and non-ASCII characters in their names; 10 through links whose names are not UTF-8; 11 through a path of more than 600 bytes.
 pub fn path_form(spec: &RunSpec, data: &Path, dump: &Path) -> (Option<PathBuf>, PathBuf, PathBuf) {
     let form: u8 = spec.env.iter().find(|(k, _)| k == "VERIF_PATH_FORM").and_then(|(_, v)| v.parse().ok()).unwrap_or(0);
     let parent = data.parent().unwrap_or(Path::new("/")).to_path_buf();
@@ -302,6 +302,17 @@ pub fn path_form(spec: &RunSpec, data: &Path, dump: &Path) -> (Option<PathBuf>, 
             let _ = std::os::unix::fs::symlink(dump, &lp);
             (None, ld, lp)
         }
+        // through a path of more than 600 bytes (three long components)
+        11 => {
+            let long = parent.join("p".repeat(200)).join("q".repeat(200)).join("r".repeat(200));
+            let _ = fs::create_dir_all(&long);
+            let (ld, lp) = (long.join("data"), long.join("dump"));
+            let _ = fs::remove_file(&ld);
+            let _ = fs::remove_file(&lp);
+            let _ = std::os::unix::fs::symlink(data, &ld);
+            let _ = std::os::unix::fs::symlink(dump, &lp);
+            (None, ld, lp)
+        }
         _ => (None, data.to_path_buf(), dump.to_path_buf()),
     }
 }
@@ -330,6 +341,23 @@ pub fn run_bin(bin: &Path, data: &Path, dump: &Path, spec: &RunSpec) -> RunResul
         cmd.env(k, v);
     }
     cmd.stdin(Stdio::null()).stdout(Stdio::piped()).stderr(Stdio::piped());
+    // who listens is part of the environment: VERIF_STDOUT_GONE / VERIF_STDERR_GONE hand the child a pipe whose reading end
+    // is already closed (`... | head` after head has left, a supervisor that closed its end): every write fails with EPIPE
+    for (var, is_out) in [("VERIF_STDOUT_GONE", true), ("VERIF_STDERR_GONE", false)] {
+        if spec.env.iter().any(|(k, _)| k == var) {
+            use std::os::unix::io::FromRawFd;
+            let mut fds = [0i32; 2];
+            if unsafe { libc::pipe2(fds.as_mut_ptr(), libc::O_CLOEXEC) } == 0 {
+                unsafe { libc::close(fds[0]) };
+                let w = unsafe { Stdio::from_raw_fd(fds[1]) };
+                if is_out {
+                    cmd.stdout(w);
+                } else {
+                    cmd.stderr(w);
+                }
+            }
+        }
+    }
     let (nofile, fsize) = (spec.rlimit_nofile, spec.rlimit_fsize);
     // address-space limit (env entry VERIF_RLIMIT_AS of the spec, bytes): how the system answers an allocation request
     let as_limit: Option<u64> = spec.env.iter().find(|(k, _)| k == "VERIF_RLIMIT_AS").and_then(|(_, v)| v.parse().ok());
